@@ -24,6 +24,14 @@ impl Write for Shared {
     fn flush(&mut self) -> std::io::Result<()> { Ok(()) }
 }
 
+/// a writer that holds everything back until it is flushed (a BufWriter / LineWriter in front of a file)
+#[derive(Clone)]
+struct Held { pending: Rc<RefCell<Vec<u8>>>, store: Rc<RefCell<Vec<u8>>> }
+impl Write for Held {
+    fn write(&mut self, b: &[u8]) -> std::io::Result<usize> { self.pending.borrow_mut().extend_from_slice(b); Ok(b.len()) }
+    fn flush(&mut self) -> std::io::Result<()> { let mut p = self.pending.borrow_mut(); self.store.borrow_mut().append(&mut p); Ok(()) }
+}
+
 fn sym(s: &[Value], marker: u8, salt: usize) -> Vec<u8> {
     s.iter().enumerate().map(|(i, x)| if x == "m" { marker } else if x == "P" { b'P' } else { b'a' + ((i + salt) % 20) as u8 }).collect()
 }
@@ -78,6 +86,46 @@ fn run_mapped(v: &Value, salt: usize) -> Result<(), String> {
     }
     if *a.borrow() != input || *b.borrow() != input {
         return Err(format!("tee: targets hold {:?} / {:?}, input was {:?}", String::from_utf8_lossy(&a.borrow()), String::from_utf8_lossy(&b.borrow()), String::from_utf8_lossy(&input)));
+    }
+    // tee: a flush reaches both targets (either may buffer), observed before the tee writer is dropped
+    for first_held in [true, false] {
+        let mk = || Held { pending: Rc::new(RefCell::new(Vec::new())), store: Rc::new(RefCell::new(Vec::new())) };
+        let (x, y) = (mk(), mk());
+        let mut t = if first_held { tee(x.clone(), y.clone()) } else { tee(y.clone(), x.clone()) };
+        let mut input = vec![];
+        for c in &chunks {
+            let bytes = sym(c, b'\n', salt);
+            input.extend_from_slice(&bytes);
+            t.write_all(&bytes).map_err(|e| format!("tee: {e}"))?;
+        }
+        t.flush().map_err(|e| format!("tee: flush: {e}"))?;
+        if *x.store.borrow() != input || *y.store.borrow() != input {
+            return Err(format!("tee-flush: after flush() the two targets have received {} and {} of {} bytes", x.store.borrow().len(), y.store.borrow().len(), input.len()));
+        }
+        std::mem::forget(t);
+    }
+    // mapped: the remainder is written when the writer is dropped - also when that happens while a panic unwinds
+    {
+        let store = Rc::new(RefCell::new(Vec::new()));
+        let mut input: Vec<u8> = vec![];
+        let st = store.clone();
+        let chunks2 = chunks.clone();
+        let inp = std::panic::catch_unwind(std::panic::AssertUnwindSafe(move || {
+            let mut w = mapped(Shared(st), b'\n', |mut seg: Vec<u8>| { let mut o = b"<P>".to_vec(); o.append(&mut seg); o });
+            let mut off = 0usize;
+            for c in &chunks2 {
+                let bytes = sym(c, b'\n', salt + off);
+                off += bytes.len();
+                input.extend_from_slice(&bytes);
+                w.write_all(&bytes).unwrap();
+            }
+            std::panic::resume_unwind(Box::new(input));
+        })).unwrap_err();
+        let input = inp.downcast::<Vec<u8>>().map(|b| *b).unwrap_or_default();
+        let want = expected(&fin, &input, b'\n');
+        if *store.borrow() != want {
+            return Err(format!("mapped-drop-while-unwinding: at the end the inner writer holds {:?}, the specification says {:?}", String::from_utf8_lossy(&store.borrow()), String::from_utf8_lossy(&want)));
+        }
     }
     Ok(())
 }
